@@ -72,7 +72,7 @@ inductive Rej where
   | tokEpoch                                 -- JWK / X5C / Nebula AuthorizeSSHSign (token options)
   | badType | typeUnset | typeUnknown | vaZero | vbBeforeVa
   | dvaZero | dpast | dvbBeforeVa | dbadType -- sshCertDefaultValidator
-  | noValidity | renewPeriod                 -- renewSSH / rekeySSH (sshCertificateDuration)
+  | noValidity | renewPeriod | renewShort    -- renewSSH / rekeySSH (sshCertificateDuration); renew: duration ≤ backdate
   deriving Repr, DecidableEq
 
 inductive Out (α : Type) where
@@ -305,6 +305,20 @@ def softcasCreate (casNow : Int) (leaf : Cert) (backdate : Int) : Out Cert :=
     let na := if leaf.na = 0 then casNow + lifetime else leaf.na
     if encodable nb ∧ encodable na then .ok ⟨trunc nb, trunc na⟩ else .rej .encode
 
+/-- `signX509`'s `lifetime`, the value every CAS receives in `CreateCertificateRequest.Lifetime` -/
+def casLifetime (leaf : Cert) (backdate : Int) : Int := tsub leaf.na (leaf.nb + backdate)
+
+/-- a CAS that does not keep the template's dates but issues from its own clock — StepCAS (RA mode: asks the
+    upstream CA for `now + lifetime`), CloudCAS, VaultCAS; and SoftCAS when the template carries no dates:
+    `[casNow − backdate, casNow + lifetime]` at second precision -/
+def lifetimeCasCreate (casNow : Int) (leaf : Cert) (backdate : Int) : Out Cert :=
+  let lifetime := casLifetime leaf backdate
+  if lifetime = 0 then .rej .lifetime0
+  else
+    let nb := casNow + wrap64 (-1 * backdate)
+    let na := casNow + lifetime
+    if encodable nb ∧ encodable na then .ok ⟨trunc nb, trunc na⟩ else .rej .encode
+
 /-- the issued certificate's validity for a sign request -/
 def x509Sign (cl : Claimer) (m : Mode) (now vnow casNow : Int) (c : Cert) (so : SignOpts) : Out Cert := do
   let leaf ← x509Leaf cl m now vnow c so
@@ -313,6 +327,14 @@ def x509Sign (cl : Claimer) (m : Mode) (now vnow casNow : Int) (c : Cert) (so : 
 /-- authority/tls.go renewContext + softcas.RenewCertificate: validity of the renewed certificate
     (`old` is a parsed certificate, `casNow` the CAS clock). -/
 def x509Renew (casNow backdate : Int) (old : Cert) : Out Cert :=
+  let duration := tsub old.na old.nb
+  let lifetime := wrap64 (duration - backdate)
+  -- since fix 5596a41: a certificate not longer than the backdate is not renewed (400)
+  if lifetime ≤ 0 then .rej .renewShort
+  else .ok ⟨trunc (casNow + wrap64 (-1 * backdate)), trunc (casNow + lifetime)⟩
+
+/-- `renewContext` + SoftCAS before fix 5596a41: only `lifetime == 0` was refused (by SoftCAS) -/
+def x509RenewBefore (casNow backdate : Int) (old : Cert) : Out Cert :=
   let duration := tsub old.na old.nb
   let lifetime := wrap64 (duration - backdate)
   if lifetime = 0 then .rej .lifetime0
@@ -528,6 +550,21 @@ def sshSignTemplate (cl : Claimer) (m : SshMode) (now : Int) (user tok : SshOpts
     fix b334f43: `sshCertificateDuration` refuses (400) `ValidBefore < ValidAfter` and periods longer than
     `MaxInt64/1e9` seconds before the (now safe) `cast.Int64` and the nanosecond product. -/
 def sshRenewDates (anow backdate : Int) (old : SshCert) : Out SshCert :=
+  if old.va = 0#64 ∨ old.vb = 0#64 then .rej .noValidity
+  else if old.vb < old.va then .rej .renewPeriod
+  else if (old.vb - old.va).toNat > 9223372036 then .rej .renewPeriod
+  else do
+    let di ← castI64 (old.vb - old.va)
+    let duration := secsToDur di
+    -- since fix 5596a41: a certificate not longer than the backdate is not renewed / rekeyed (400)
+    if duration ≤ backdate then .rej .renewShort
+    else do
+      let va ← castU64 (unixOf (anow + wrap64 (-1 * backdate)))
+      let vb ← castU64 (unixOf (anow + wrap64 (duration - backdate)))
+      pure { old with va := va, vb := vb }
+
+/-- renewSSH / rekeySSH between b334f43 and 5596a41: no comparison of the duration with the backdate -/
+def sshRenewDatesNoBackdateCheck (anow backdate : Int) (old : SshCert) : Out SshCert :=
   if old.va = 0#64 ∨ old.vb = 0#64 then .rej .noValidity
   else if old.vb < old.va then .rej .renewPeriod
   else if (old.vb - old.va).toNat > 9223372036 then .rej .renewPeriod
